@@ -345,13 +345,19 @@ func (t FunctionBlock) serializeTo(writer io.StringWriter) {
 // writing chunks as Unicode string
 // by calling the provided `write` callback.
 func serializeTo(nodes []Token, writer io.StringWriter) {
-	var previousType string
+	var (
+		previousType string
+		previous     Token
+	)
 	for _, node := range nodes {
 		serializationType := node.Kind().String()
 		if literal, ok := node.(Literal); ok {
 			serializationType = literal.Value
 		}
 		if badPairs[[2]string{previousType, serializationType}] {
+			writer.WriteString("/**/")
+		} else if serializationType == ">" && endsWithTwoDashes(previous) {
+			// "-->" would be read as a CDC token
 			writer.WriteString("/**/")
 		} else if previousType == "\\" {
 			whitespace, ok := node.(Whitespace)
@@ -362,7 +368,25 @@ func serializeTo(nodes []Token, writer io.StringWriter) {
 		}
 		node.serializeTo(writer)
 		previousType = serializationType
+		previous = node
 	}
+}
+
+// reports whether the token is an identifier, at-keyword, hash or dimension
+// whose name ends with "--"
+func endsWithTwoDashes(token Token) bool {
+	var name string
+	switch token := token.(type) {
+	case Ident:
+		name = token.Value
+	case AtKeyword:
+		name = token.Value
+	case Hash:
+		name = token.Value
+	case Dimension:
+		name = token.Unit
+	}
+	return strings.HasSuffix(name, "--")
 }
 
 func (t QualifiedRule) serializeTo(writer io.StringWriter) {
